@@ -72,9 +72,30 @@ NEEDS.update({
  "C20b-2": ("confchange::restore: learners_next no longer replayed", "restart or snapshot restore in a joint configuration with a staged learner"),
 })
 
+NEEDS.update({
+ "C06b-1": ("Ready::take_messages no longer keeps a non-leader's messages back (is_persisted_msg guard forgotten in the consuming accessor)", "an application that uses take_messages() (as the examples do) on a follower/candidate whose Ready carries a vote or an acknowledgement together with the hard state / entries it depends on; crash between sending and writing"),
+ "C06b-2": ("step_candidate: a Candidate tallies late pre-vote grants as votes", "pre_vote on, pre-vote grants delayed past the PreCandidate->Candidate transition, real votes refused; two leaders / vote promises broken"),
+ "C10b-1": ("become_leader no longer clears the uncommitted-size account", "max_uncommitted_size set; a leader accepts proposals it cannot commit, is deposed and loses that tail, then is re-elected without a restart: every further proposal is refused"),
+ "C10b-2": ("handle_snapshot_status: a failed snapshot report no longer moves the progress back to Probe", "follower lagging past the compaction point, snapshot lost and reported as failed, no leader change afterwards: follower never caught up"),
+ "C11b-1": ("MajorityConfig::committed_index heap path: vec![0; n] then push (2n elements)", "8 or 9 voters in one half"),
+ "C11b-2": ("ProgressTracker::vote_result: early Pending while fewer votes than a majority of the incoming half are recorded", "even-sized sets, joint configs with a smaller outgoing half, rejections arriving first"),
+ "C12b-1": ("Changer::apply: 'removed all voters' guard also requires an empty outgoing half", "an enter-joint change that removes or demotes every current voter, followed by leave-joint"),
+ "C12b-2": ("ProgressTracker::clear no longer clears the progress map", "Raft::restore of a snapshot whose ConfState lacks a peer the follower currently tracks"),
+ "C14b-1": ("RaftLog::slice: early return dropped when the stable part was cut by max_size", "unequal entry sizes: a big stored entry cuts the stable read while a small unstable entry still fits"),
+ "C14b-2": ("RaftLog::last_term fast path ignores a pending snapshot without entries behind it", "between accepting a snapshot and persisting it, before any append: vote request or up-to-date query"),
+ "C18b-1": ("Inflights::full: count > cap instead of >= for a pending smaller capacity", "set_cap smaller on a non-empty window, count reaching exactly the new capacity before the window drains"),
+ "C18b-2": ("Inflights::set_cap grow path tests wrap-around against buffer.capacity() instead of cap", "in-place grow of a full window (Vec over-allocates), ring wraps relative to cap, second grow"),
+ "C19b-1": ("MemStorage::snapshot: request_index guard compares the last applied snapshot's index", "request_index strictly between the last snapshot's index and the stored commit index"),
+ "C19b-2": ("MemStorageCore::append fast path: returns early when the batch's last entry is already stored with the same term", "an overwriting append that ends inside the stored log on an equal (index, term)"),
+})
+
+NOT_VIOLATING = {
+ "C18b-1": "not kept: the changed behaviour stays inside the property as stated (\"a reduced capacity takes effect no later than when the window drains\": until then either capacity may bound the window; the model in comp_small.rs accepts both on purpose, otherwise a lazier but conforming implementation would raise a false alarm)",
+}
+
 def verified():
     ok = {}
-    for f in ["/tmp/vs_all.log", "/tmp/vs_all2.log", "/tmp/vs_all3.log"] + sorted(glob.glob("/tmp/vs_r2*.log")):
+    for f in ["/tmp/vs_final.log"]:
         if not os.path.exists(f): continue
         for l in open(f):
             m = re.match(r"(C\d\db?)-(\d): (.*)", l.strip())
@@ -84,6 +105,9 @@ def verified():
     return ok
 
 def detection():
+    if os.path.exists("/tmp/mut_final.json"):
+        raw = json.load(open("/tmp/mut_final.json"))
+        return {k: {c: bool(v) for c, v in r.items() if c != "apply" and v is not None} for k, r in raw.items()}
     det = {}
     for f in sorted(glob.glob("/tmp/mut_*.log")):
         cur = None
@@ -105,7 +129,12 @@ def main():
         pid = d0[:3]
         src = f"/tmp/mut/{d0}/_out"
         v = ok.get(key)
+        if key in NOT_VIOLATING:
+            shutil.rmtree(f"/verif/seeded/{key}", ignore_errors=True)
+            rows.append((key, what, NOT_VIOLATING[key], ""))
+            continue
         if not v or not v[0]:
+            shutil.rmtree(f"/verif/seeded/{key}", ignore_errors=True)
             rows.append((key, what, "NOT KEPT (not confirmed on current HEAD: %s)" % (v[1] if v else "no verification record"), ""))
             continue
         d = f"/verif/seeded/{key}"
